@@ -174,6 +174,32 @@ def parse_condition(c, cons_by_attr, prefix='field'):
     return attr, None
 
 
+def _earlier_check_passed(a, prefix):
+    if isinstance(a, Sym) and a.op in ('is', 'isnot') and \
+            a.args[1] is None and field_of(a.args[0], prefix):
+        return True
+    if isinstance(a, Sym) and a.op == 'isinstance':
+        return True
+    n = T.not_(a)
+    if isinstance(n, Sym):
+        if parse_condition(n, {}, prefix)[1] is None:
+            return True
+        if n.op == 'not' and isinstance(n.args[0], Sym) and \
+                n.args[0].op == 'or':
+            n = T.and_(*[T.not_(x) for x in n.args[0].args])
+            if isinstance(n, Sym) and \
+                    parse_condition(n, {}, prefix)[1] is None:
+                return True
+    if isinstance(a, Sym) and a.op == 'or':
+        # not (x is not None and <test>)  ==  x is None or not <test>
+        return all(_earlier_check_passed(x, prefix) or (
+            isinstance(x, Sym) and x.op in ('is', 'isnot'))
+            for x in a.args)
+    if isinstance(a, Sym) and a.op == 'and':
+        return all(_earlier_check_passed(x, prefix) for x in a.args)
+    return False
+
+
 def extract(ctx, ci, fi, args_builder, prefix):
     """Run fi and parse every explicit ValueError raise into constraints.
     Returns (constraints by attr, problems, outcomes, interp)."""
@@ -195,6 +221,15 @@ def extract(ctx, ci, fi, args_builder, prefix):
             problems.append('unconditional raise at ' + o.exc.site)
             continue
         before = {k: len(c.none_guard) for k, c in cons.items()}
+        # what else the path to this raise assumes: only that the earlier
+        # checks passed (or that a field is / is not None).  Anything else
+        # means the constraint is enforced only some of the time.
+        for a in atoms[:-1]:
+            if not _earlier_check_passed(a, prefix):
+                problems.append(
+                    'VIOLATION the refusal at %s is reached only when %s: '
+                    'values that break the constraint are accepted '
+                    'otherwise' % (o.exc.site, T.show(a)[:100]))
         attr_, err = parse_condition(atoms[-1], cons, prefix)
         if err:
             problems.append(err)
@@ -337,7 +372,10 @@ def check_class(chk, ctx, ci, q, v, want, regex_ok, site):
         ctx, ci, v, lambda it, st: [ctx.symbolic_instance(it, st, ci)],
         'field')
     for p in problems:
-        chk.undecide('C13.C', q + '.validate', p)
+        if p.startswith('VIOLATION '):
+            chk.ob('C13.C', q + '.validate path', False, p[10:], site=site)
+        else:
+            chk.undecide('C13.C', q + '.validate', p)
     for attr in sorted(set(want) | set(cons)):
         w = want.get(attr)
         g = cons.get(attr)
